@@ -1,6 +1,6 @@
 (* Proofs/CffProofs.v — CFF DICT integer operands (all of i32) and the INDEX structure. *)
 From AV Require Import Base.Prelude Base.Lemmas Gen.ReaderPrims Model.Reader Model.ReaderExt
-  Proofs.ReaderProofs Proofs.EncodeProofs Model.Layout Proofs.LayoutProofs Gen.TableLayouts Model.Tables Model.Cff.
+  Proofs.ReaderProofs Proofs.EncodeProofs Model.TableLayout Proofs.TableLayoutProofs Gen.TableLayouts Model.Tables Model.Cff.
 From Coq Require Import ZifyBool ZifyNat.
 Ltac Zify.zify_post_hook ::= Z.div_mod_to_equations.
 Open Scope Z_scope.
